@@ -304,7 +304,10 @@ pub fn run_faults(path: &str, outp: &str, skip_to: u64) {
         if id < skip_to {
             continue;
         }
-        let text: String = if let Some(p) = case.get("p").and_then(|p| p.as_array()) {
+        let text: String = if let Some(u) = case.get("unit").and_then(|u| u.as_str()) {
+            // long run: pre + unit x n + post
+            format!("{}{}{}", case["pre"].as_str().unwrap(), u.repeat(case["n"].as_u64().unwrap() as usize), case["post"].as_str().unwrap())
+        } else if let Some(p) = case.get("p").and_then(|p| p.as_array()) {
             p.iter().map(|p| p.as_str().unwrap()).collect()
         } else if let Some(t) = case.get("text").and_then(|t| t.as_str()) {
             t.to_string()
